@@ -176,7 +176,24 @@ impl System for Sys {
             Op::Restart(i) => (&self.trains[*i].pkts[0], Some(*i)),
             Op::Stray(j) => (&self.strays[*j].bytes, None),
         };
-        let (out, mut rx2) = step_decap(&s.rx, &DefaultCrc {}, &TableMgr::none(), bytes);
+        // interleaved packets arrive inside frames: every packet is presented followed by further (non-padding)
+        // bytes, and a receiver walking the frame by consumed lengths must find the next packet right behind it
+        let mut framed = bytes.to_vec();
+        framed.extend_from_slice(&[0xA5, 0x5A, 0xC3]);
+        let (out, mut rx2) = step_decap(&s.rx, &DefaultCrc {}, &TableMgr::none(), &framed);
+        let is_padding = matches!(op, Op::Stray(j) if self.strays[*j].name == "padding");
+        if !is_padding {
+            if let Some(c) = out.consumed() {
+                if c != bytes.len() {
+                    let what = match op {
+                        Op::Stray(k) => format!("stray:{}", self.strays[*k].name.split(|c: char| c.is_ascii_digit()).next().unwrap_or("").trim_end_matches('-')),
+                        Op::Advance(_) => "train-packet".to_string(),
+                        Op::Restart(_) => "restart".to_string(),
+                    };
+                    viols.push((format!("C07|swallows-following-packets|{}|{}", what, out.class()), format!("{:?} ({}) inside a frame consumed {} bytes instead of its own {}: the packets that follow it in the frame (other PDUs' fragments) are never seen", op, out.class(), c, bytes.len())));
+                }
+            }
+        }
         let opn = match op {
             Op::Advance(_) => "advance".to_string(),
             Op::Restart(_) => "restart".to_string(),
@@ -336,7 +353,7 @@ pub fn sys_from_name(name: &str) -> Option<Sys> {
 
 pub fn run(tier: Tier) -> i32 {
     let rep = Report::new("C07", tier);
-    rep.set_rule("for each configuration (trains = (PDU length, fragments) on fragment ids 0..k-1, memory of n slots) breadth-first search to closure over advance(i) / restart(i) / stray(j) with state = (next index per train, real receiver snapshot); strays: intermediate/end of ids aliasing each train's slot (id+n, id+2n), of an id mapping to an empty slot, duplicate end of an idle train, complete packets (3-byte, broadcast and re-use label, the latter checked against the nearest preceding start/complete label), padding, oversize aliasing intermediate, (one configuration) a foreign first fragment claiming an aliasing slot; oracle: delivery exactly at the own end fragment with own bytes/metadata, no other train's reassembly data altered by any op, strays leave the memory unchanged; distinct = (op kind, outcome); number of distinct receiver memories per index vector reported");
+    rep.set_rule("for each configuration (trains = (PDU length, fragments) on fragment ids 0..k-1, memory of n slots) breadth-first search to closure over advance(i) / restart(i) / stray(j) with state = (next index per train, real receiver snapshot); strays: intermediate/end of ids aliasing each train's slot (id+n, id+2n), of an id mapping to an empty slot, duplicate end of an idle train, complete packets (3-byte, broadcast and re-use label, the latter checked against the nearest preceding start/complete label), padding, oversize aliasing intermediate, (one configuration) a foreign first fragment claiming an aliasing slot; oracle: delivery exactly at the own end fragment with own bytes/metadata, no other train's reassembly data altered by any op, strays leave the memory unchanged, every packet is presented followed by three non-padding bytes and must consume exactly its own length; distinct = (op kind, outcome); number of distinct receiver memories per index vector reported");
     rep.assume("trains are built by the reference printer (independent of the crate's encapsulator); PDUs of 4..12 bytes, 2..5 fragments");
     let mut configs: Vec<(usize, Vec<(usize, usize)>, bool)> = vec![
         (2, vec![(4, 2), (6, 3)], false),
